@@ -211,6 +211,8 @@ Proof.
     rewrite (schain_step (s_text m) (tlen (s_text m))), byte_past by lia. reflexivity.
 Qed.
 
+Lemma mk_string_sep_inv_str sep t : inv_str (mk_string_sep sep t).
+Proof. unfold inv_str, mk_string_sep. cbn. repeat split; lia. Qed.
 Lemma mk_string_inv t : inv_str (mk_string t).
-Proof. unfold inv_str, mk_string. cbn. repeat split; lia. Qed.
+Proof. apply mk_string_sep_inv_str. Qed.
 End SimStr.
